@@ -116,6 +116,27 @@ func child(seed int64, tier string, from, to, only, conc int, outPath, progPath,
 			}()
 			continue
 		}
+		if i%10 == 9 {
+			// a remote superior living several lives (reborn.go) takes the place of another tenth
+			wg.Add(1)
+			go func() {
+				defer wg.Done()
+				sl.acquire()
+				defer sl.release()
+				pmu.Lock()
+				fmt.Fprintf(pf, "START %d\n", i)
+				pmu.Unlock()
+				rr := rebornScenario(root.Derive("reborn", i), i, watchdog)
+				b, _ := json.Marshal(map[string]interface{}{"reborn": rr})
+				pmu.Lock()
+				w.Write(b)
+				w.WriteByte('\n')
+				w.Flush()
+				fmt.Fprintf(pf, "DONE %d\n", i)
+				pmu.Unlock()
+			}()
+			continue
+		}
 		if i%10 == 7 {
 			// a crowd scenario (crowd.go) takes the place of every tenth topology scenario
 			wg.Add(1)
@@ -390,6 +411,29 @@ func main() {
 							map[string]interface{}{"scenario": sr, "note": sr.Notes[k]})
 					}
 					run.Case(vh.HashS(fmt.Sprintf("stall-%d-%d", sr.Idx, sr.Collectors)), true)
+				}
+				continue
+			}
+			if strings.HasPrefix(l, `{"reborn":`) {
+				var x struct {
+					Reborn *RebornRec `json:"reborn"`
+				}
+				if json.Unmarshal([]byte(l), &x) == nil && x.Reborn != nil {
+					rr := x.Reborn
+					if rr.NotJudged != "" {
+						run.Drop("reborn scenario not judged: " + rr.NotJudged)
+						continue
+					}
+					run.Count("reborn_scenarios", 1)
+					run.Count("reborn_lives", int64(len(rr.Delivered)))
+					for _, d := range rr.Delivered {
+						run.Count("reborn_task_deliveries", int64(d))
+					}
+					for k, kind := range rr.Kinds {
+						run.Violate(rr.Idx, kind, map[string]string{"scenario": "remote-superior-reborn", "last_life_ends_by": rr.LastEnds},
+							map[string]interface{}{"scenario": rr, "note": rr.Notes[k]})
+					}
+					run.Case(vh.HashS(fmt.Sprintf("reborn-%d-%d-%d-%s", rr.Idx, rr.Lives, rr.Collectors, rr.LastEnds)), true)
 				}
 				continue
 			}
